@@ -90,6 +90,9 @@ type Angine struct {
 
 	getAdminVote func([]byte, *types.Validator) ([]byte, error)
 
+	// validator set the CA admission check reads; kept current as the state advances
+	authValidators *types.ValidatorSet
+
 	queryPayLoadTxParser func([]byte) ([]byte, error)
 
 	apis []map[string]*server.RPCFunc
@@ -334,6 +337,7 @@ func (ang *Angine) assembleStateMachine(stateM *state.State) {
 			return err
 		}
 		stateM.Save()
+		ang.authValidators = stateM.Validators
 		log.Debug("save to db", zap.Int64("height", blk.Height), zap.String("state receiptHash", fmt.Sprintf("%X", stateM.ReceiptsHash)), zap.String("block receiptHash", fmt.Sprintf("%X", blk.ReceiptsHash)))
 		return nil
 	})
@@ -349,7 +353,8 @@ func (ang *Angine) assembleStateMachine(stateM *state.State) {
 	}
 
 	if conf.GetBool("auth_by_ca") {
-		ang.p2pSwitch.SetAuthByCA(authByCA(conf, &stateM.Validators))
+		ang.authValidators = stateM.Validators
+		ang.p2pSwitch.SetAuthByCA(authByCA(conf, &ang.authValidators))
 	}
 
 	setEventSwitch(*ang.eventSwitch, bcReactor, memReactor, consensusEngine)
@@ -953,8 +958,9 @@ func refuseListFilter(refuseList *refuse_list.RefuseList) func(crypto.PubKey) er
 }
 
 func authByCA(conf *viper.Viper, ppValidators **types.ValidatorSet) func(*p2p.NodeInfo) error {
-	valset := *ppValidators
 	return func(peerNodeInfo *p2p.NodeInfo) error {
+		// the CURRENT set: the state machine replaces *ppValidators after every block
+		valset := *ppValidators
 		// validator node must be signed by CA
 		// but normal node can bypass auth check if config says so
 		if valset.HasAddress(peerNodeInfo.PubKey.Address()) && !conf.GetBool("non_validator_node_auth") {
@@ -1023,6 +1029,7 @@ func (ang *Angine) InitPlugins() {
 //UpdateStateMachine
 func (ang *Angine) UpdateStateMachine(s *state.State) {
 	ang.stateMachine = s
+	ang.authValidators = s.Validators
 }
 
 func ensureQueryDB(dbDir string) (*dbm.GoLevelDB, error) {
